@@ -262,13 +262,18 @@ class Cluster:
 
         while True:
             if task not in self._clusters[c]['tasks']['running']:
-                # THIS CHECK DOESN"T WORK FIX IT SOMEHOW
-                if (machine not in self._clusters[c]['resources'][
-                    'available'] and (machine not in
-                        self._clusters[c]['resources'][
-                            'ingest'] and machine not in
-                        self.get_idle_resources(
-                            observation))):
+                # Ingest tasks run on machines already moved to the ingest
+                # pool; any other task needs a machine that is available or
+                # reserved (idle) for its observation.
+                if ingest:
+                    machine_free = machine in self._clusters[c][
+                        'resources']['ingest']
+                else:
+                    machine_free = (
+                        machine in self._clusters[c]['resources'][
+                            'available']
+                        or machine in self.get_idle_resources(observation))
+                if not machine_free:
                     raise RuntimeError
                 if ingest:
                     # Ingest resources allocated separately from scheduler
